@@ -289,7 +289,7 @@ func runSubRace(c driver.Case) driver.Result {
 // ---------------------------------------------------------------- (b) operator level
 
 func libGoroutinesSince(before map[string]bool) []quiesce.G {
-	gs, _ := quiesce.Settle(2 * time.Second)
+	gs, _ := quiesce.Settle(10 * time.Second)
 	var out []quiesce.G
 	for _, g := range gs {
 		if before[g.ID] {
@@ -502,8 +502,12 @@ func runOp(c driver.Case) driver.Result {
 		}
 		time.Sleep(200 * time.Microsecond)
 	}
-	_, settled := quiesce.Settle(2 * time.Second)
+	_, settled := quiesce.Settle(15 * time.Second)
 	res.Dirty = !settled
+	if !settled && !libRunning(before) {
+		// only harness goroutines are still runnable (loaded machine): nothing can be said about the library
+		return driver.Result{Verdict: driver.Inconclusive, Key: "process-not-quiescent", Dirty: true}
+	}
 	what := fmt.Sprintf("%s, %d values then %s", name, nv, closedBy)
 	res.Events = int64(r.Len()) + int64(len(srcs))
 	res.Nontrivial = true
@@ -559,6 +563,20 @@ func runOp(c driver.Case) driver.Result {
 	return res
 }
 
+// libRunning: a goroutine created since `before` that has a library frame is not blocked.
+func libRunning(before map[string]bool) bool {
+	for _, g := range quiesce.Dump() {
+		if before[g.ID] || !strings.Contains(g.Stack, "/repo/") {
+			continue
+		}
+		st := g.State
+		if strings.HasPrefix(st, "running") || strings.HasPrefix(st, "runnable") || strings.HasPrefix(st, "sleep") {
+			return true
+		}
+	}
+	return false
+}
+
 func topLibFrame(stack string) string {
 	lines := strings.Split(stack, "\n")
 	for i, l := range lines {
@@ -611,8 +629,11 @@ func runSync(c driver.Case) driver.Result {
 		func() { defer func() { recover() }(); sub.Unsubscribe() }()
 		what += " then Unsubscribe"
 	}
-	_, settled := quiesce.Settle(2 * time.Second)
+	_, settled := quiesce.Settle(15 * time.Second)
 	res.Dirty = !settled
+	if !settled && !libRunning(before) {
+		return driver.Result{Verdict: driver.Inconclusive, Key: "process-not-quiescent", Dirty: true}
+	}
 	res.Events = int64(r.Len()) + int64(len(srcs))
 	res.Nontrivial = true
 	res.Sig = e.Name + "/sync/" + c.Get("script") + "→" + r.TraceString()
